@@ -955,11 +955,19 @@ impl<'a> VisitMut for Norm<'a> {
 }
 
 /// Returns the number of loops found (pre-order numbering).
-pub fn normalise(block: &mut syn::Block, opts: &BTreeMap<String, String>, stats: &mut Stats, desc: &str, before: &[String]) -> (usize, Vec<usize>) {
+pub fn normalise(block: &mut syn::Block, opts: &BTreeMap<String, String>, stats: &mut Stats, desc: &str, before: &[String]) -> (usize, Vec<usize>, usize) {
     let deref_idents = opts.get("n3").map(|s| s.split(',').map(|x| x.to_string()).collect()).unwrap_or_default();
     let mut n = Norm { stats, desc, loops: 0, tmp: 0, closure_args: 0, deref_idents, keep_async: false, yieldctx: opts.get("yieldctx").cloned(), opt_map: opts.contains_key("optmap"), dropnote: opts.get("dropnote").cloned(), selfty: opts.get("selfty").cloned(), skip_sort: false, strviews: opts.contains_key("strviews"), forlist: opts.contains_key("forlist"), nexton: opts.get("nexton").cloned(), before: before.to_vec(), before_hits: vec![0; before.len()], subst: opts.get("subst").and_then(|v| v.split_once(':').map(|(a, b)| (a.to_string(), b.replace('~', "::")))) };
     n.visit_block_mut(block);
-    (n.loops, n.before_hits.clone())
+    let (l, b) = (n.loops, n.before_hits.clone());
+    // closures that are still there after normalisation carry no contract: Verus knows nothing about their results
+    struct CC(usize);
+    impl<'ast> syn::visit::Visit<'ast> for CC {
+        fn visit_expr_closure(&mut self, c: &'ast syn::ExprClosure) { self.0 += 1; syn::visit::visit_expr_closure(self, c); }
+    }
+    let mut cc = CC(0);
+    syn::visit::Visit::visit_block(&mut cc, block);
+    (l, b, cc.0)
 }
 
 /// N8: take the token body of `try_stream! { … }` / `stream! { … }` inside a function.
